@@ -9,6 +9,10 @@ use std::cell::Cell;
 use std::fmt;
 
 pub const H8_STOP: u32 = 1;
+/// hand-written leaf visitors: an integer visitor that implements `visit_i64` only, a float visitor
+/// that implements `visit_f64` only (TOML integers are i64, floats f64: what a careful hand-written
+/// `Deserialize` impl for a TOML-only type relies on); asked through `deserialize_any` or the typed hint
+pub const H9_NARROW: u32 = 2;
 
 #[derive(Debug)]
 pub struct RCfg {
@@ -48,6 +52,28 @@ impl<'de, 'a> DeserializeSeed<'de> for R<'a> {
     type Value = Val;
     fn deserialize<D: Deserializer<'de>>(self, d: D) -> Result<Val, D::Error> {
         let cfg = self.cfg;
+        if cfg.hmask & H9_NARROW != 0 {
+            let range: Option<(i128, i128)> = match self.ty {
+                Ty::I8 => Some((i8::MIN as i128, i8::MAX as i128)),
+                Ty::I16 => Some((i16::MIN as i128, i16::MAX as i128)),
+                Ty::I32 => Some((i32::MIN as i128, i32::MAX as i128)),
+                Ty::I64 => Some((i64::MIN as i128, i64::MAX as i128)),
+                Ty::U8 => Some((0, u8::MAX as i128)),
+                Ty::U16 => Some((0, u16::MAX as i128)),
+                Ty::U32 => Some((0, u32::MAX as i128)),
+                Ty::U64 => Some((0, u64::MAX as i128)),
+                _ => None,
+            };
+            if let Some((lo, hi)) = range {
+                if cfg.flag(H9_NARROW) {
+                    let v = OnlyI64 { lo, hi };
+                    return if cfg.flag(H9_NARROW) { d.deserialize_any(v) } else { d.deserialize_i64(v) };
+                }
+            }
+            if *self.ty == Ty::F64 && cfg.flag(H9_NARROW) {
+                return if cfg.flag(H9_NARROW) { d.deserialize_any(OnlyF64) } else { d.deserialize_f64(OnlyF64) };
+            }
+        }
         match self.ty {
             Ty::Bool => bool::deserialize(d).map(Val::Bool),
             Ty::I8 => i8::deserialize(d).map(|x| Val::Int(x as i128)),
@@ -94,6 +120,33 @@ impl<'de, 'a> DeserializeSeed<'de> for R<'a> {
                 d.deserialize_struct(serde_spanned::__unstable::NAME, &FIELDS, SpannedV { t, cfg })
             }
         }
+    }
+}
+
+struct OnlyI64 {
+    lo: i128,
+    hi: i128,
+}
+impl<'de> Visitor<'de> for OnlyI64 {
+    type Value = Val;
+    fn expecting(&self, f: &mut fmt::Formatter<'_>) -> fmt::Result {
+        write!(f, "a TOML integer between {} and {}", self.lo, self.hi)
+    }
+    fn visit_i64<E: de::Error>(self, v: i64) -> Result<Val, E> {
+        if (v as i128) < self.lo || (v as i128) > self.hi {
+            return Err(E::invalid_value(de::Unexpected::Signed(v), &self));
+        }
+        Ok(Val::Int(v as i128))
+    }
+}
+struct OnlyF64;
+impl<'de> Visitor<'de> for OnlyF64 {
+    type Value = Val;
+    fn expecting(&self, f: &mut fmt::Formatter<'_>) -> fmt::Result {
+        f.write_str("a TOML float")
+    }
+    fn visit_f64<E: de::Error>(self, v: f64) -> Result<Val, E> {
+        Ok(Val::F64(v.to_bits()))
     }
 }
 
